@@ -327,6 +327,7 @@ impl C08 {
                 ("conservation-directed", DIRECTED_CONSERVATION.len() as u64),
                 ("conservation-programs", 60),
                 ("conservation-mutants", 200),
+                ("code-point-sweep", 8),
             ]);
         }
         Families::new(vec![
@@ -338,6 +339,8 @@ impl C08 {
             ("conservation-directed", DIRECTED_CONSERVATION.len() as u64),
             ("conservation-programs", t.pick(20_000, 500_000)),
             ("conservation-mutants", t.pick(60_000, 2_000_000)),
+            // every Unicode scalar value in a string literal, in an identifier, or refused as illegal (props/unisweep.rs)
+            ("code-point-sweep", super::unisweep::BLOCKS),
         ])
     }
 
@@ -418,6 +421,11 @@ impl Check for C08 {
         let (f, name, i) = self.fams(ctx).locate(idx);
         let mut r = Rng::for_case(ctx.seed, 800 + f as u64, i);
         match name {
+            "code-point-sweep" => {
+                let block = if ctx.flavour == crate::sup::Flavour::Miri { [0, 1, 2, 3, 0x20, 0x21, 0xFE, 0xFF][i as usize % 8] } else { i };
+                super::unisweep::strings(block, name, st);
+                super::unisweep::identifiers(block, name, st);
+            }
             "string-decode" => {
                 // i-th string over the alphabet, lengths 0..4 in order
                 let mut k = i;
